@@ -45,5 +45,7 @@ EvalAll ==
     /\ Verdict("C06", C06_CrashSafeAt(files))
     /\ Verdict("R08", \A s \in DOMAIN RB : NoDupSeq(RB[s]) /\ SeqSet(RB[s]) = CommittedIds(s))
     /\ Verdict("R03", \A s \in DOMAIN RB : \A k \in done : IsSubSeq(SessionSeq(s, k), RB[s]))
+    /\ Verdict("R06", \A s \in Splits : LET r == IF s \in DOMAIN RB THEN RB[s] ELSE <<>> IN
+                          /\ NoDupSeq(r) /\ SeqSet(r) \subseteq AcceptedIds(s) /\ CommittedIds(s) \subseteq SeqSet(r))
     /\ PrintT(<<"EVALUATED", idx>>)
 ===============================================================================
